@@ -1,0 +1,5 @@
+//go:build !verif
+
+package fs
+
+func vhook(string, any) {}
